@@ -18,7 +18,7 @@ RULES["C12"] = ("cases: Threshold(s) for s drawn from {1,2,3,20,50,1000, tie val
                 "edge or with reference uniformity P strictly inside (1e-9,1-1e-9). distinct: hash of the case JSON.")
 PROPS["C12"] = {
     "level": "exploration",
-    "quick": [S("TestC12", 4000, floor=2000), S("TestC12", 4000, floor=2000), S("TestC12Sweep", floor=10, env={"VERIF_LO": 1, "VERIF_HI": 20000})],
+    "quick": [S("TestC12", 20000, floor=5000), S("TestC12", 20000, floor=5000), S("TestC12", 20000, floor=5000), S("TestC12Sweep", floor=10, env={"VERIF_LO": 1, "VERIF_HI": 20000})],
     "thorough": [S("TestC12Sweep", floor=1000, env={"VERIF_LO": 1 + i * 62500, "VERIF_HI": (i + 1) * 62500}) for i in range(16)]
                 + shards(8, "TestC12", 30000, floor=10000),
     "exhaustive": {"thorough": "Threshold(s) for every s in 1..10^6"},
@@ -47,7 +47,7 @@ RULES["C01"] = (_SEQ + "tests: monobit (bits/bytes), block frequency (automatic 
                 "|dP|,|dQ| <= 1e-8. non-trivial: reference P strictly inside (1e-12, 1-1e-12). distinct: hash of the case JSON.")
 PROPS["C01"] = {
     "level": "exploration",
-    "quick": shards(8, "TestC01", 1500, floor=500) + [S("TestC01Sweep", floor=10)],
+    "quick": shards(8, "TestC01", 6000, floor=1500) + [S("TestC01Sweep", floor=10)],
     "thorough": shards(15, "TestC01", 4000, floor=1500, timeout=3000) + [S("TestC01Sweep", floor=10), S("TestC01Sweep", mode="huge", floor=2, mem_gb=60)],
     "assumptions": ["reference statistics are my transcription of the standard, validated on the annex known answers on every run",
                     "math.Erfc/Log trusted"],
@@ -59,7 +59,7 @@ RULES["C02"] = (_SEQ + "tests: runs total (n from 1), runs distribution (n >= 10
                 "non-trivial: >= 3 runs and reference P inside (1e-12,1-1e-12) (runs total: >= 3 runs). distinct: hash of the case JSON.")
 PROPS["C02"] = {
     "level": "exploration",
-    "quick": shards(8, "TestC02", 1500, floor=500) + [S("TestC02Sweep", floor=20)],
+    "quick": shards(8, "TestC02", 5000, floor=1500) + [S("TestC02Sweep", floor=20)],
     "thorough": shards(15, "TestC02", 8000, floor=3000, timeout=3000) + [S("TestC02Sweep", floor=20)],
     "assumptions": ["reference statistics validated on the annex known answers on every run", "math.Erfc trusted"],
 }
@@ -70,7 +70,7 @@ RULES["C03"] = (_SEQ + "tests: binary derivative k in {3,7,15} (plus period-2^j 
                 "non-trivial: reference P inside (1e-12,1-1e-12). distinct: hash of the case JSON.")
 PROPS["C03"] = {
     "level": "exploration",
-    "quick": shards(8, "TestC03", 1500, floor=500) + [S("TestC03Sweep", floor=20)],
+    "quick": shards(8, "TestC03", 6000, floor=1500) + [S("TestC03Sweep", floor=20)],
     "thorough": shards(15, "TestC03", 8000, floor=3000, timeout=3000) + [S("TestC03Sweep", floor=20)],
     "assumptions": ["reference statistics validated on the annex known answers on every run", "math.Erfc trusted"],
 }
@@ -83,7 +83,7 @@ RULES["C04"] = ("linear complexity: (a) every one of the 2^m blocks for m = 1..1
                 "non-trivial: a block whose complexity L has 2L-m outside [-2,3] (atypical class); a matrix of rank <= 30; a 7-bit pattern absent from the initialisation segment or reference P inside (1e-12,1-1e-12). distinct: hash of the case JSON.")
 PROPS["C04"] = {
     "level": "exploration",
-    "quick": shards(6, "TestC04", 300, floor=100) + [S("TestC04", 300, mode="rank", floor=100), S("TestC04", 200, mode="maurer", floor=50)]
+    "quick": shards(6, "TestC04", 1200, floor=300) + [S("TestC04", 1200, mode="rank", floor=300), S("TestC04", 800, mode="maurer", floor=200)]
              + [S("TestC04Exhaustive", floor=1000, env={"VERIF_LO": 1, "VERIF_HI": 12, "VERIF_PART": i, "VERIF_PARTS": 4}) for i in range(4)],
     "thorough": shards(8, "TestC04", 2500, floor=800, timeout=3400) + shards(2, "TestC04", 2000, mode="rank", floor=500) + shards(2, "TestC04", 1500, mode="maurer", floor=300)
              + [S("TestC04Exhaustive", floor=10000, env={"VERIF_LO": 1, "VERIF_HI": 16, "VERIF_PART": i, "VERIF_PARTS": 8}, timeout=3400) for i in range(8)]
@@ -100,7 +100,7 @@ RULES["C05"] = ("sequences from families {explicit bits, uniform, biased, consta
                 "of the threshold are ambiguous and any count in [lo, lo+amb] is accepted; |dP|,|dQ| <= 1e-8. non-trivial: 0 < N1 and N1+amb < n/2-1 (the count discriminates). distinct: hash of the case JSON.")
 PROPS["C05"] = {
     "level": "exploration",
-    "quick": shards(8, "TestC05", 500, floor=150) + [S("TestC05Sweep", floor=100)],
+    "quick": shards(8, "TestC05", 1500, floor=400) + [S("TestC05Sweep", floor=100)],
     "thorough": shards(15, "TestC05", 4000, floor=1000, timeout=3400) + [S("TestC05Sweep", floor=100, env={"VERIF_HI": 300})],
     "assumptions": ["n <= 2^20 executed (2^27 would need ~5 GB for the library and again for the oracle); the code path is size independent",
                     "math.Sincos/cmplx.Abs trusted"],
@@ -113,7 +113,7 @@ RULES["C19"] = ("cases: transform (N = 2^p, p in 1..12 mostly, 13..15 (20 thorou
                 "non-trivial: N >= 4 and not the impulse at 0; constructor argument not itself a power of two or refused; every mismatch case. distinct: hash of the case JSON.")
 PROPS["C19"] = {
     "level": "exploration",
-    "quick": shards(6, "TestC19", 700, floor=200) + [S("TestC19Sweep", floor=100)],
+    "quick": shards(8, "TestC19", 2000, floor=500) + [S("TestC19Sweep", floor=100)],
     "thorough": shards(15, "TestC19", 5000, floor=1500, timeout=3400) + [S("TestC19Sweep", floor=100, env={"VERIF_HI": 70000}, timeout=3400)]
                 + [S("FuzzFFTNew", fuzz="FuzzFFTNew", fuzztime=60, parallel=4, floor=1000, weight=4, timeout=600)],
     "assumptions": ["fft.New(2^27) itself is not constructed (3 GB); 2^27+1 and above are checked by argument only",
@@ -197,7 +197,7 @@ RULES["C11"] = ("cases: numByte from {0,1,14..17,38..41,1278..1281,4096, [0,60],
                 "(|P-0.01| < 1e-8 skipped). non-trivial: the verdicts under m = 2, 4, 8 would not all agree, or P in [0.001, 0.1], or 14 <= numByte < 16. distinct: hash of the case JSON.")
 PROPS["C11"] = {
     "level": "exploration",
-    "quick": shards(6, "TestC11", 1500, floor=500) + [S("TestC11Sweep", floor=100, env={"VERIF_LO": 0, "VERIF_HI": 400})],
+    "quick": shards(8, "TestC11", 4000, floor=1000) + [S("TestC11Sweep", floor=100, env={"VERIF_LO": 0, "VERIF_HI": 400})],
     "thorough": shards(12, "TestC11", 20000, floor=5000) + [S("TestC11Sweep", floor=1000, env={"VERIF_LO": i * 1025, "VERIF_HI": i * 1025 + 1024}) for i in range(4)],
     "assumptions": ["reference poker validated on the annex known answers on every run"],
 }
@@ -222,7 +222,7 @@ RULES["C15"] = ("byte strings (128..4000 bytes, >= the test's minimum; odd and e
                 "B2bitArr/B2bit/B2Byte round trip. non-trivial: odd byte length or non-uniform content. distinct: hash of the case JSON.")
 PROPS["C15"] = {
     "level": "exploration",
-    "quick": shards(6, "TestC15", 400, floor=150) + [S("TestC15Sweep", floor=50)],
+    "quick": shards(8, "TestC15", 1200, floor=300) + [S("TestC15Sweep", floor=50)],
     "thorough": shards(14, "TestC15", 5000, floor=1500, timeout=3400) + [S("TestC15Sweep", floor=50)],
     "assumptions": ["the mapping 'i-th test of the standard' -> exported function is the harness's table (GM/T 0005-2021 numbering)"],
 }
@@ -264,17 +264,27 @@ PROPS["C18"] = {
 RULES["C13"] = ("a directory tree in a scratch dir: 1..40 sample files (2*10^4 scale; 1..3 at 10^6; 1..4 short files for the 10^8 worker), suffix .bin/.dat, random safe base names (duplicates across sub-directories allowed), nesting depth 0..3, "
                 "0..5 non-sample files of other suffixes, sometimes a directory whose name ends in .bin/.dat; contents uniform/biased/markov/periodic/constant/sparse/run-list; -n in 1..64, GOMAXPROCS in {1,2,16}. The built rddetector binary is run "
                 "end to end at the 2*10^4 and 10^6 scales; worker_1E8 is driven directly through a go test -overlay shim on 100000..200000-bit files; main's scale switch for 10^8 is observed on sparse 12.5 MB files (header line read, process killed). "
-                "oracle: exit status 0 within the budget (a stuck child gets SIGQUIT: all goroutines blocked = violation, merely slow = inconclusive); report = the scale's header + exactly one row per sample file (multiset on base names, rows of equal name matched by values); "
+                "Some shards pin 'one worker, >= 2-3 files' (a worker then handles consecutive files) and some run a -race build of the binary / shim (a race report is a violation). oracle: exit status 0 within the budget (a stuck child gets SIGQUIT: all goroutines blocked = violation, merely slow = inconclusive); report = the scale's header + exactly one row per sample file (multiset on base names, rows of equal name matched by values); "
                 "every cell equals, to 6 decimals (+-1 unit), the library's P/Q value for the test, parameter and component that the header column names. non-trivial: >= 2 files and a worker count different from the file count. distinct: hash of the case JSON.")
 PROPS["C13"] = {
     "level": "exploration",
-    "need": ["rddetector", "shim"],
-    "quick": [S("TestC13", 30, env={"VERIF_SCALE": "2E4"}, floor=10) for _ in range(4)] + [S("TestC13", 1, env={"VERIF_SCALE": "1E6"}, floor=1, weight=3)]
-             + [S("TestC13", 2, env={"VERIF_SCALE": "1E8"}, floor=1, weight=2), S("TestC13", 1, env={"VERIF_SCALE": "1E8hdr"}, floor=1)],
-    "thorough": [S("TestC13", 150, env={"VERIF_SCALE": "2E4"}, floor=50, timeout=3400) for _ in range(5)] + [S("TestC13", 8, env={"VERIF_SCALE": "1E6"}, floor=3, weight=3, timeout=3400) for _ in range(3)]
-             + [S("TestC13", 25, env={"VERIF_SCALE": "1E8"}, floor=8, weight=2, timeout=3400) for _ in range(2)] + [S("TestC13", 3, env={"VERIF_SCALE": "1E8hdr"}, floor=1)],
+    "need": ["rddetector", "shim", "rddetector_race", "shim_race"],
+    "quick": [S("TestC13", 30, env={"VERIF_SCALE": "2E4"}, floor=10) for _ in range(3)]
+             + [S("TestC13", 12, env={"VERIF_SCALE": "2E4", "VERIF_RACE_BIN": 1}, floor=4, weight=2), S("TestC13", 8, env={"VERIF_SCALE": "2E4", "VERIF_RACE_BIN": 1, "VERIF_WORKERS": 1, "VERIF_MINFILES": 3}, floor=3, weight=2)]
+             + [S("TestC13", 1, env={"VERIF_SCALE": "1E6"}, floor=1, weight=3), S("TestC13", 1, env={"VERIF_SCALE": "1E6", "VERIF_WORKERS": 1, "VERIF_MINFILES": 3}, floor=1, weight=2),
+                S("TestC13", 1, env={"VERIF_SCALE": "1E6", "VERIF_WORKERS": 1, "VERIF_MINFILES": 2, "VERIF_RACE_BIN": 1}, floor=1, weight=2)]
+             + [S("TestC13", 2, env={"VERIF_SCALE": "1E8"}, floor=1, weight=2), S("TestC13", 1, env={"VERIF_SCALE": "1E8", "VERIF_WORKERS": 1, "VERIF_MINFILES": 2, "VERIF_RACE_BIN": 1}, floor=1, weight=2),
+                S("TestC13", 1, env={"VERIF_SCALE": "1E8hdr"}, floor=1)],
+    "thorough": [S("TestC13", 150, env={"VERIF_SCALE": "2E4"}, floor=50, timeout=3400) for _ in range(4)]
+             + [S("TestC13", 60, env={"VERIF_SCALE": "2E4", "VERIF_RACE_BIN": 1}, floor=20, weight=2, timeout=3400), S("TestC13", 40, env={"VERIF_SCALE": "2E4", "VERIF_RACE_BIN": 1, "VERIF_WORKERS": 1, "VERIF_MINFILES": 3}, floor=10, weight=2, timeout=3400)]
+             + [S("TestC13", 8, env={"VERIF_SCALE": "1E6"}, floor=3, weight=3, timeout=3400) for _ in range(2)]
+             + [S("TestC13", 5, env={"VERIF_SCALE": "1E6", "VERIF_WORKERS": w, "VERIF_MINFILES": 3}, floor=2, weight=2, timeout=3400) for w in (1, 2)]
+             + [S("TestC13", 3, env={"VERIF_SCALE": "1E6", "VERIF_WORKERS": 1, "VERIF_MINFILES": 2, "VERIF_RACE_BIN": 1}, floor=1, weight=2, timeout=3400)]
+             + [S("TestC13", 25, env={"VERIF_SCALE": "1E8"}, floor=8, weight=2, timeout=3400) for _ in range(2)]
+             + [S("TestC13", 6, env={"VERIF_SCALE": "1E8", "VERIF_WORKERS": 1, "VERIF_MINFILES": 2, "VERIF_RACE_BIN": 1}, floor=2, weight=2, timeout=3400), S("TestC13", 3, env={"VERIF_SCALE": "1E8hdr"}, floor=1)],
     "assumptions": ["the 10^8 scale is not run end to end (linear complexity m=5000 on 10^8 bits costs ~20 min per file): its worker is driven on short files, its header selection on sparse files",
-                    "file names with commas/newlines are outside the property (the CSV would be unparseable)", "the expected value is by definition the library's exported function (the report is under test, not the statistic)"],
+                    "file names with commas/newlines are outside the property (the CSV would be unparseable)", "the expected value is by definition the library's exported function (the report is under test, not the statistic)",
+                    "schedules of worker / writer / walker goroutines are sampled (worker counts, GOMAXPROCS, pinned 'one worker, several files' shards) and additionally observed by race-detector builds of the binary and of the shim"],
 }
 
 RULES["C20"] = ("runs of the built rdgen binary from a fresh scratch working directory: s in 1..40 (300 thorough), n in {20000, 10^6, 8*k for k in 1..10000} (two 10^8 runs in thorough), output directory absent (documented default target/data) / relative / reused (a quarter of the cases first run rdgen into the same directory with another s and n: the files must end up with exactly the new size) / "
@@ -284,7 +294,7 @@ RULES["C20"] = ("runs of the built rdgen binary from a fresh scratch working dir
 PROPS["C20"] = {
     "level": "exploration",
     "need": ["rdgen", "shim"],
-    "quick": shards(4, "TestC20", 40, floor=12),
+    "quick": shards(6, "TestC20", 60, floor=15),
     "thorough": shards(8, "TestC20", 150, floor=50, timeout=3400) + [S("TestC20Big", floor=1)],
     "assumptions": ["directory permission bits (MkdirAll(..., 0600)) are invisible when running as root and are not asserted",
                     "contents come from crypto/rand: equality of two files or an all-zero file is treated as impossible for n >= 128"],
